@@ -240,52 +240,97 @@ example : searchBlank (str "Content-Disposition: form-data; name=\"a\"\r\n\r") =
 
 /-! ### P1: whole bodies -/
 
-/-- **decode_chunk_independent (bodies written by the encoder).** For every boundary without
-CR / LF, every list of parts satisfying the decidable predicate `ValidPart` (any number of fields and
-files in any order, repeated names, empty / body-less / non-empty payloads made of CR, LF, CRLF runs,
-dashes, boundary prefixes and look-alikes, long lines, binary — `PayloadOk`: no *line* of the payload
-starts with `--boundary`; Unicode names; extra headers) and **every** list of chunks whose
-concatenation is the body `encBody bnd parts` (= what `MultipartEncoder` writes, CRLF delimiters):
-decoding chunk by chunk raises nothing and yields exactly the same parts — kind, name, filename,
-headers, byte-exact payload — as decoding the body in one piece, namely the encoded parts.
-The retained `_search_position`, the hold-back in `_parse_data`, DATA_START waiting, a chunk ending
-between the CR and LF of a delimiter line, several parts in one chunk … are all covered. -/
-theorem decode_chunk_independent_partial {bnd : Bytes} (hb : BoundaryOk bnd) (parts : List Part)
-    (hv : ∀ p ∈ parts, ValidPart bnd p) (chunks : List Bytes)
-    (hjoin : chunks.flatten = encBody bnd parts) :
+/-- **decode_chunk_independent (CRLF-delimited bodies).** For every boundary without CR / LF and
+every body of the form
+
+  preamble · CRLF `--boundary` CRLF headers CRLF CRLF payload … CRLF `--boundary--` · ep
+
+(`bodyOf bnd ep pr lead parts`): an arbitrary preamble `pr` that does not contain `--boundary`
+(`PreOk`; with `lead = false` the body starts directly with `--boundary`, as browsers send it); any
+list of parts satisfying the decidable predicate `ValidPart` (fields and files in any order, repeated
+names, empty / body-less / non-empty payloads made of CR, LF, CRLF runs, dashes, boundary prefixes and
+look-alikes, long lines, binary — `PayloadOk`: no *line* of the payload starts with `--boundary`;
+Unicode names; extra headers); arbitrary bytes `ep` after the closing `--boundary--` (the encoder's
+CRLF, an epilogue, transport padding, nothing) — and **every** list of chunks whose concatenation is
+that body: decoding chunk by chunk raises nothing and yields exactly the same parts — kind, name,
+filename, headers, byte-exact payload — as decoding the body in one piece, namely the given parts.
+The retained `_search_position` in PREAMBLE and PART, the hold-back in `_parse_data`, DATA_START
+waiting, a chunk ending between the CR and LF of a delimiter line, several parts in one chunk … are
+all covered. -/
+theorem decode_chunk_independent_partial {bnd : Bytes} (hb : BoundaryOk bnd) (ep pr : Bytes) (lead : Bool)
+    (hpre : PreOk bnd pr lead) (parts : List Part) (hv : ∀ p ∈ parts, ValidPart bnd p)
+    (chunks : List Bytes) (hjoin : chunks.flatten = bodyOf bnd ep pr lead parts) :
     (decodeChunks bnd none none chunks).err = none ∧
     partsOf (decodeChunks bnd none none chunks).events =
-      partsOf (decodeChunks bnd none none [encBody bnd parts]).events ∧
+      partsOf (decodeChunks bnd none none [bodyOf bnd ep pr lead parts]).events ∧
     partsOf (decodeChunks bnd none none chunks).events = parts.map decodedPart := by
-  have h1 := decode_chunks_full_lemma hb parts hv chunks hjoin
-  have h2 := decode_chunks_full_lemma hb parts hv [encBody bnd parts] (by simp)
+  have h1 := decode_chunks_full_lemma (ep := ep) hb hpre parts hv chunks hjoin
+  have h2 := decode_chunks_full_lemma (ep := ep) hb hpre parts hv [bodyOf bnd ep pr lead parts] (by simp)
   exact ⟨h1.1, by rw [h1.2, h2.2], h1.2⟩
+
+/-- without preamble and with the leading CRLF the body is `encBody` -/
+theorem bodyOf_encBody (bnd ep : Bytes) (parts : List Part) :
+    bodyOf bnd ep [] true parts = encBody bnd ep parts := by simp [bodyOf]
 
 /-- the body really is the encoder's output -/
 theorem encBody_is_encoder_output {bnd : Bytes} (parts : List Part) (hv : ∀ p ∈ parts, ValidPart bnd p) :
-    encodeAll bnd parts = .ok (encBody bnd parts) :=
+    encodeAll bnd parts = .ok (encBody bnd stdEp parts) :=
   encodeAll_eq parts hv
 
-/-- non-vacuity: the F01a body (payload `x LF y…`) and a body-less field are valid parts, and a
-byte-at-a-time chunking of their body is a chunking -/
+/-- non-vacuity: the F01a body (payload `x LF y…`) and a body-less field are valid parts, a preamble
+with line breaks and dashes is admissible, and a byte-at-a-time chunking is a chunking -/
 example :
     BoundaryOk (str "bound") ∧
     ValidPart (str "bound") ⟨true, some ['a'], some ['f'], [], str "x\nyyyyyyyyyyyyyyyyyyyyyyyyyyy"⟩ ∧
     ValidPart (str "bound") ⟨false, some ['b'], none, [], []⟩ ∧
-    ((encBody (str "bound") [⟨false, some ['b'], none, [], []⟩]).map fun b => [b]).flatten =
-      encBody (str "bound") [⟨false, some ['b'], none, [], []⟩] := by
+    PreOk (str "bound") (str "pre\r\namble --boun\r\n--") true ∧ PreOk (str "bound") [] false ∧
+    ¬ PreOk (str "bound") (str "x --bound y") true ∧
+    ((bodyOf (str "bound") (str "\r\nepilogue") (str "pre") true [⟨false, some ['b'], none, [], []⟩]).map
+        fun b => [b]).flatten =
+      bodyOf (str "bound") (str "\r\nepilogue") (str "pre") true [⟨false, some ['b'], none, [], []⟩] := by
+  decide +kernel
+
+/-- **formParse_read_independent (one level up).** For every such body,
+`MultiPartParser(buffer_size=k).parse` over a stream that delivers short reads returns the same form
+fields and files for **every** `buffer_size` and **every** read schedule: the fields (name, value
+decoded with the part's charset) and files (name, filename, headers, byte-exact content) of the parts,
+in order (`formOfParts`); a part whose charset cannot be determined fails the same way for every
+schedule. -/
+theorem formParse_read_independent {bnd : Bytes} (hb : BoundaryOk bnd) (ep pr : Bytes) (lead : Bool)
+    (hpre : PreOk bnd pr lead) (parts : List Part) (hv : ∀ p ∈ parts, ValidPart bnd p)
+    (bufSize : Nat) (sched : List Nat) :
+    formParse bnd none none bufSize sched (bodyOf bnd ep pr lead parts) =
+      formOfParts ([], []) (parts.map decodedPart) :=
+  formParse_lemma (ep := ep) hb hpre parts hv bufSize sched
+
+/-- in particular any two buffer sizes / schedules agree, e.g. byte-at-a-time and one full read -/
+theorem formParse_bufsize_irrelevant {bnd : Bytes} (hb : BoundaryOk bnd) (ep pr : Bytes) (lead : Bool)
+    (hpre : PreOk bnd pr lead) (parts : List Part) (hv : ∀ p ∈ parts, ValidPart bnd p)
+    (b1 b2 : Nat) (s1 s2 : List Nat) :
+    formParse bnd none none b1 s1 (bodyOf bnd ep pr lead parts) =
+      formParse bnd none none b2 s2 (bodyOf bnd ep pr lead parts) := by
+  rw [formParse_read_independent hb ep pr lead hpre parts hv,
+    formParse_read_independent hb ep pr lead hpre parts hv]
+
+/-- non-vacuity / sanity: a field and a file, read one byte at a time -/
+example :
+    (formParse (str "b") none none 1 []
+      (bodyOf (str "b") stdEp [] false [⟨false, some ['a'], none, [], str "v\r\n-"⟩,
+                          ⟨true, some ['f'], some ['x'], [], [0, 255]⟩])).toOption =
+    some ([(some ['a'], "v\r\n-".toList)],
+          [⟨some ['f'], ['x'], [("Content-Disposition".toList, "form-data; name=\"f\"; filename=\"x\"".toList)],
+            [0, 255]⟩]) := by
   decide +kernel
 
 /-
 OPEN (P1) — stated, not proved:
 
--- OPEN: decode_chunk_independent for the rest of the property's grammar: bodies with a preamble or
--- an epilogue, bare-LF / bare-CR delimiters (with payloads free of the other newline kind), and
--- header blocks other than the ones the encoder writes. The proof of
--- `decode_chunk_independent_partial` (Lemmas/MultipartChunks.lean: an invariant `Good` per phase, one
--- `next_event` lemma per phase valid on every prefix of the stream, accounting of the Data events) is
--- parametric in the line break only through `AfterDelim` / `hdrBlock`; the missing piece for a
--- preamble is the stability of `preamble_re` matches under extension for arbitrary preamble bytes.
+-- OPEN: decode_chunk_independent for the rest of the property's grammar: bare-LF / bare-CR delimiters
+-- (with payloads free of the other newline kind), a preamble that contains `--boundary` without being
+-- a delimiter, and header blocks other than `Name: value` lines (continuations, odd white space).
+-- The proof of `decode_chunk_independent_partial` (Lemmas/MultipartChunks.lean: an invariant `Good`
+-- per phase, one `next_event` lemma per phase valid on every prefix of the stream, accounting of the
+-- Data events) depends on the line break only through `AfterDelim`, `hdrBlock` and `PayloadOk`.
 -- The unrestricted statement is false (`decode_chunk_independent_full_false`, finding F01c: transport
 -- padding on the first delimiter).
 
